@@ -118,22 +118,30 @@ def applyBin (f : String) (x y : Int) : Option Outcome :=
   | ">>" => shiftRight x y
   | _ => none
 
+def unaryCovered : List String := ["-", "+", "abs", "sign", "\\"]
+def binaryCovered : List String :=
+  ["+", "-", "*", "//", "rem", "mod", "div", "max", "min", "^", "/\\", "\\/", "xor", "<<", ">>"]
+
 /-- Value of an integer expression: sub-expressions left to right, the first error wins.
-    `none`: the tree leaves the fragment the property speaks about (unknown functor, shift outside 0..63
-    or overflowing shift). -/
+    `none`: the tree leaves the fragment the property speaks about (a functor that is not one of the
+    integer functors above, a shift outside 0..63 or an overflowing shift). -/
 def eval : Expr → Option Outcome
   | .lit z => some (.value z)
   | .un f a =>
-    match eval a with
-    | some (.value x) => applyUn f x
-    | r => r
-  | .bin f a b =>
-    match eval a with
-    | some (.value x) =>
-      match eval b with
-      | some (.value y) => applyBin f x y
+    if f ∈ unaryCovered then
+      match eval a with
+      | some (.value x) => applyUn f x
       | r => r
-    | r => r
+    else none
+  | .bin f a b =>
+    if f ∈ binaryCovered then
+      match eval a with
+      | some (.value x) =>
+        match eval b with
+        | some (.value y) => applyBin f x y
+        | r => r
+      | r => r
+    else none
 
 /-! ### comparison -/
 
